@@ -264,3 +264,96 @@ class C10(CreateProp):
 
 
 PROPS = {"C01": C01, "C02": C02, "C03": C03, "C10": C10, "C15": C15}
+
+
+# ---------------------------------------------------------------------------------------------
+# C08: the info dictionary depends only on payload, piece length, version, info options
+# ---------------------------------------------------------------------------------------------
+class C08(CreateProp):
+    pid = "C08"
+    group_key = "group"
+    isolate = True          # relative spellings: keep process-lifetime state (C09's business) out of it
+    design_ref = "DESIGN.md section 6 C08"
+    level_text = ("TLC checks on Determinism.tla that the v1 and v2 file orders derived from a directory do not depend "
+                  "on the OS enumeration order (all permutations of every directory of four trees whose full-path order "
+                  "and per-directory order differ; the variant without sorted() must fail). Conformance: for each "
+                  "payload a GROUP of creates that differ only in what must not matter - path spelling (absolute, "
+                  "relative, ./x, x/, x//, zz/../x, x/., '.' from inside, doubled separator), working directory, a copy "
+                  "at another location, every permutation of the enumeration order (os.listdir / os.scandir / "
+                  "Path.iterdir patched), trackers / seeds / outfile name, progress 0/1/2, quiet, two clock values - "
+                  "is validated by TLC: identical info-hash across the group, identical file minus creation date for "
+                  "members with equal outer options, name = directory name.")
+    rule = ("groups = (tree, P, version, info options private/source/comment) x ~16 metamorphic members; "
+            "non-trivial = member differs from the canonical first member in spelling, cwd, location, enumeration "
+            "order, outer options, progress or clock; distinct by (group, variation)")
+
+    def mc(self, tier):
+        return [{"module": "MCDeterminism.tla", "cfg": "MC_Determinism.cfg", "workers": 2,
+                 "what": "file order independent of OS enumeration order, all permutations"},
+                {"module": "MCDeterminism.tla", "cfg": "MC_Determinism_nosort.cfg", "expect": "fail", "workers": 2,
+                 "what": "without sorted() the order depends on enumeration"}]
+
+    def cases(self, tier, rng):
+        out = []
+        nbase = 120 if tier == "thorough" else 26
+        g = 0
+        creators = {1: ["TorrentFile", "cli"], 2: ["TorrentAssembler", "TorrentFileV2", "cli"],
+                    3: ["TorrentAssembler", "TorrentFileHybrid", "cli"]}
+        for b in range(nbase):
+            v = (1, 2, 3)[b % 3]
+            P = rng.choice(plens("quick"))
+            A = alphabet(P)
+            sh = rng.choice(["D3", "D4", "D2n", "S1", "D2", "DN"])
+            k = 1 if sh == "S1" else len(SHAPES[sh])
+            sizes = tuple(rng.choice(A) for _ in range(k))
+            if sum(sizes) == 0:
+                sizes = (P + 1,) * k
+            tree = mk_tree(sh, sizes)
+            infoopts = [{}, {"private": True}, {"source": "SRC", "comment": "a comment é"},
+                        {"private": True, "source": "x", "comment": "y"}][b % 4]
+            g += 1
+            grp = "c08-%d" % g
+            cr = creators[v][b % len(creators[v])]
+            base = {"creator": cr, "version": v, "P": P, "tree": tree, "group": grp, "opts": dict(infoopts),
+                    "outer": "plain", "clauses": ["C08.info", "C08.rest", "C08.name"]}
+            members = [dict(base)]                                   # canonical: absolute path
+            dir_sp = ["rel", "dotslash", "updown", "absdot", "dbl"] + ([] if sh == "S1" else ["trail", "trail2", "slashdot", "dot"])
+            if sh == "S1":
+                dir_sp = ["rel", "dotslash", "updown", "dbl"]
+            for sp in dir_sp:
+                members.append(dict(base, spelling=sp))
+            members.append(dict(base, cwd_mode="elsewhere"))
+            members.append(dict(base, copy=True))
+            members.append(dict(base, copy=True, spelling="rel"))
+            nperm = 6 if tier == "thorough" else 3
+            for pm in range(1, 1 + nperm):
+                members.append(dict(base, enum_perm=pm * 5 + b))
+            members.append(dict(base, clock=1000000000))
+            members.append(dict(base, clock=1700000000, progress=1))
+            members.append(dict(base, progress=2))
+            if cr == "cli":
+                members.append(dict(base, pre=["-q"]))
+            o1 = dict(infoopts, announce=["http://t1.example/a", "http://t2.example/a"], url_list=["http://w.example/"])
+            members.append(dict(base, opts=o1, outer="trackers"))
+            members.append(dict(base, opts=o1, outer="trackers", clock=1234567890, enum_perm=3 + b))
+            o2 = dict(infoopts, httpseeds=["http://h.example/"], announce=["http://other/"])
+            members.append(dict(base, opts=o2, outer="seeds", outname="other-name.torrent"))
+            members.append(dict(base, outname="zzz.torrent", spelling="rel"))
+            out.extend(members)
+        return out
+
+    def nontrivial(self, case):
+        var = tuple(sorted((k, str(v)) for k, v in case.items()
+                           if k in ("spelling", "cwd_mode", "copy", "enum_perm", "clock", "progress", "outer", "outname", "pre")))
+        if not var or var == (("outer", "plain"),):
+            return None
+        return (case["group"], var)
+
+    def signature(self, case, rec, clause):
+        return "%s/%s" % (clause, (case or {}).get("spelling", "abs"))
+
+    def sample(self, case, rec):
+        return {k: v for k, v in case.items() if k not in ("clauses",)}
+
+
+PROPS["C08"] = C08
